@@ -99,8 +99,10 @@ theorem arm_block {t : Tracker} (hb : ∀ a, 0 ≤ t.bal a) {tx : Tx} {pre : Sta
       · cases h
       · simp only at h
         split at h
-        · simp only [Except.ok.injEq] at h; subst h
-          right; simp [hact, sflLoss, sumAmounts]; try grind
+        · split at h
+          · cases h
+          · simp only [Except.ok.injEq] at h; subst h
+            right; simp [hact, sflLoss, sumAmounts]; try grind
         · split at h
           · split at h
             · cases h
@@ -176,7 +178,9 @@ theorem arm_inj_nonreg {t : Tracker} {tx : Tx} {pre : Status} {past future : Lis
       · cases h
       · simp only at h
         split at h
-        · simp only [Except.ok.injEq] at h; subst h; simp
+        · split at h
+          · cases h
+          · simp only [Except.ok.injEq] at h; subst h; simp
         · split at h
           · split at h
             · cases h
